@@ -20,7 +20,7 @@ RULE = ("two case kinds. params: a parameter class of draw_params.py (MPDrawPara
         "trajectory / with set-based prediction incl. interval time steps and holes, phantom, environment; shapes rectangle, "
         "circle, polygon, group; exact and uncertain positions; signal series) + 0..2 planning problems, drawn with a parameter "
         "setting: window begin chosen around every initial/final time step (before, inside, after the horizons), end = begin, "
-        "begin+1, begin+3, another horizon point, begin+40 or begin-1; mode 'plain' = shapes on, icons/signals/trajectories/"
+        "begin+1, begin+3, another horizon point, begin+40 or begin-1; in 1/3 of the cases 1..3 earlier frames were drawn and rendered on the same renderer (whole scenario or obstacles only, keep_static_artists True/False); mode 'plain' = shapes on, icons/signals/trajectories/"
         "extra occupancies/history off (other flags random), mode 'lattice' = every boolean field of the 87 nested groups "
         "flipped with probability 0/0.1/0.5/0.9, history steps, id filters (none, empty, subset, superset, unknown ids) for "
         "lanelets, planning problems, traffic signs. Positions, orientations and velocities of obstacle states are exact "
@@ -41,10 +41,10 @@ ASSUMPTIONS = ["clause (b) is stated for time windows time_begin <= time_end; an
 TRUSTED = ["harness expansion of model items to shapes uses the implementation's own occupancy_at_time / state_at_time_step "
            "(the model selects *which* occupancy is drawn, not its geometry)"]
 REQUIRED_BUCKETS = ["params:ctor-window", "params:top-level", "params:nested", "params:group-value", "params:deeper-only",
-                    "params:not-declared", "params:window", "params:self-referential", "draw:plain", "draw:lattice", "window:before", "window:inside",
+                    "params:not-declared", "params:window", "params:self-referential", "params:partly-held", "draw:plain", "draw:lattice", "window:before", "window:inside",
                     "window:after", "window:tb=te", "obst:static", "obst:dyn-none", "obst:dyn-traj", "obst:dyn-set",
                     "obst:phantom", "obst:env", "obst:uncertain-init", "lanelets:all", "lanelets:subset", "lanelets:none-selected",
-                    "problems:filtered", "raster", "renderer-reused", "outside-quantifier", "anchor:center", "reading:mid", "border-vertices", "light-labels", "set-based-later-steps", "hidden-by-guard", "icon", "history"]
+                    "problems:filtered", "raster", "renderer-reused", "frames:keep-static", "frames:obstacles-only", "outside-quantifier", "anchor:center", "reading:mid", "border-vertices", "light-labels", "set-based-later-steps", "hidden-by-guard", "icon", "history"]
 WORKERS = {"quick": 1, "thorough": 8}
 
 PRIV = "_BaseParam__initialized"
@@ -63,11 +63,15 @@ def pub(g):
     return [(k, v) for k, v in g.__dict__.items() if not k.startswith("_")]
 
 
-def dump(g):
-    """Observable state of a parameter group and everything nested in it, in __dict__ order."""
+def dump(g, _seen=()):
+    """Observable state of a parameter group and everything nested in it, in __dict__ order.
+    A group that contains itself (possible only after a self-referential assignment) is cut at the cycle."""
     from commonroad.visualization.draw_params import BaseParam
+    if id(g) in _seen:
+        return atom("<cycle>")
+    seen = _seen + (id(g),)
     return {"i": bool(g.__dict__.get(PRIV, False)),
-            "f": [[k, dump(v) if isinstance(v, BaseParam) else atom(v)] for k, v in pub(g)]}
+            "f": [[k, dump(v, seen) if isinstance(v, BaseParam) else atom(v)] for k, v in pub(g)]}
 
 
 def schema():
@@ -168,6 +172,19 @@ def gen_params_case(ctx):
         kw["time_begin"] = {"v": r.choice([3, 7, 50])}
         if r.random() < 0.7:
             kw["time_end"] = {"v": r.choice([8, 60, 300])}
+    if r.random() < 0.3:
+        # one parameter set again and again at different depths of one branch with values from a small pool that contains
+        # the default: nested groups deviate from the groups above them, then an ancestor is set to a value that some of
+        # the groups below already hold and others do not
+        deep_paths = [(pth, c) for pth, c in paths_of(root) if len(pth) >= 2]
+        if deep_paths:
+            pth, c = r.choice(deep_paths)
+            names = [(k, cat, d) for k, cat, gc, d in sch[c] if cat != "group"]
+            name, cat, dflt = r.choice(names) if r.random() < 0.7 else ("time_begin", "int", 0)
+            pool = [dflt, g_plain(r, name, cat), g_plain(r, name, cat)] + ([None] if cat == "opt" or r.random() < 0.15 else [])
+            ops = [[pth[:r.randint(0, len(pth))] if i else list(pth), name, {"v": r.choice(pool)}]
+                   for i in range(r.choice([2, 3, 4, 5]))]
+            return {"kind": "params", "root": root, "kw": kw, "ops": ops}
     ops = []
     allowed = None  # after a group-valued assignment at path P only prefixes of P are addressed (aliasing, see RULE)
     all_paths = paths_of(root)
@@ -283,6 +300,10 @@ def run_params_case(ctx, case, model=True):
             ctx.tag("params:not-declared")
         if name in ("time_begin", "time_end"):
             ctx.tag("params:window")
+        if not is_group:
+            held = [getattr(h, name) for _, h in walk_groups(target) if name in {f.name for f in dataclasses.fields(h)}]
+            if any(x == val and type(x) is type(val) for x in held) and any(x != val for x in held):
+                ctx.tag("params:partly-held")  # some nested groups already hold the value, others deviate
         selfref = is_group and declares_deep(type(val).__name__, name)
         res = call(setattr, target, name, val)
         if selfref:
@@ -290,11 +311,8 @@ def run_params_case(ctx, case, model=True):
             # the objects are cyclic after the error, so the history ends here
             ctx.tag("params:self-referential")
             trees_in.append([path, name, spec_tree(v)])
-            if res[0] != "ok":
-                impl.append({"err": res[1]})
-                break
-            impl.append({"ok": dump(root)})
-            continue
+            impl.append({"err": res[1]} if res[0] != "ok" else {"ok": dump(root)})
+            break
         if res[0] != "ok":
             ctx.fail(f"C19/params.setattr/raises-{res[1]}", f"setattr({'.'.join(path) or 'root'}, {name!r}, …) raises {res[2]}", sub)
             impl.append({"err": res[1]})
@@ -467,7 +485,18 @@ def gen_draw_case(ctx):
         sets = [s for s in sets if s[1] not in ("time_begin", "time_end")]
         kw = {"time_begin": {"v": tb}, "time_end": {"v": te}}
     spec["params"] = {"root": "MPDrawParams", "kw": kw, "sets": sets}
-    spec.update({"kind": "draw", "mode": mode, "tb": tb, "te": te, "raster": r.random() < 0.4, "reuse": r.random() < 0.25})
+    spec.update({"kind": "draw", "mode": mode, "tb": tb, "te": te, "raster": r.random() < 0.4})
+    if r.random() < 0.35:
+        # earlier frames on the same renderer: each draws the whole scenario or only the obstacles and is rendered with
+        # keep_static_artists True / False; the static map is normally drawn only while none is kept
+        frames, kept = [], 0
+        for _ in range(r.choice([1, 1, 2, 3])):
+            nw = kept == 0 or r.random() < 0.15
+            keep = r.random() < 0.5
+            frames.append({"dt": r.choice([1, 1, -1, 2, 0]), "network": nw, "keep": keep})
+            kept = kept + nw if keep else 0
+        spec["frames"] = frames
+        spec["network"] = kept == 0 or r.random() < 0.15
     return spec
 
 
@@ -651,13 +680,54 @@ def fail_exc(ctx, stage, e, case):
         pass
 
 
-def model_draw(ctx, p, obstacles):
-    """The selection model's answer for this parameter object and these obstacles: the tree goes in, `flagsOf` reads it."""
+def descriptors(p, obstacles):
     fl = read_flags(p)
     times = [fl["dyn"]["tb"], fl["dyn"]["te"], fl["dyn"]["traj_tb"], fl["dyn"]["traj_te"], fl["ph"]["tb"], fl["ph"]["te"]]
     hist = max(0, fl["dyn"]["hist_steps"]) * abs(fl["dyn"]["hist_step_size"])
     lo, hi = min(times) - hist - 2, max(times) + 2
-    return ctx.driver.ask("C19", "draw_tree", {"tree": dump(p), "obstacles": [describe(o, lo, hi) for o in obstacles]})
+    return [describe(o, lo, hi) for o in obstacles]
+
+
+def model_draw(ctx, p, obstacles):
+    """The selection model's answer for this parameter object and these obstacles: the tree goes in, `flagsOf` reads it."""
+    return ctx.driver.ask("C19", "draw_tree", {"tree": dump(p), "obstacles": descriptors(p, obstacles)})
+
+
+def model_frames(ctx, frames, obstacles):
+    """frames: [(parameter object, draws the network, keep_static_artists)] on one renderer -> what every frame shows."""
+    return ctx.driver.ask("C19", "frames", {"frames": [
+        {"tree": dump(q), "obstacles": descriptors(q, obstacles), "draw_network": bool(nw), "keep": bool(keep)}
+        for q, nw, keep in frames]})
+
+
+def expected_of(items, obstacles, p):
+    """Model items of one frame -> expected canonical patches and labels."""
+    expected, labels = [], []
+    for o, its in zip(obstacles, items):
+        for it in its:
+            if it[0] == "label":
+                pos = anchor(label_state(o, p), it[1])
+                labels.append([canon(pos[0] + 0.5), canon(pos[1]), str(o.obstacle_id)])
+            expected.extend(expand(it, o, p))
+    return expected, labels
+
+
+def observe_buffers(rnd):
+    patches = [patch_canon(x) for x in rnd.obstacle_patches]
+    labels = [[canon(t.get_position()[0]), canon(t.get_position()[1]), t.get_text()] for t in rnd.dynamic_labels]
+    return patches, labels
+
+
+def draw_frame(rnd, sc, pps, q, network):
+    """One frame's draws: the whole scenario, or only the obstacles on top of the kept static map."""
+    if network:
+        sc.draw(rnd, q)
+    else:
+        rnd.draw_list(sc.obstacles, q)
+    obs = observe_buffers(rnd)  # the planning problems put their own markers into the same buffer afterwards
+    if network:
+        pps.draw(rnd, q)
+    return obs
 
 
 def light_texts(ax):
@@ -753,18 +823,37 @@ def run_draw_case(ctx, case, model=True):
         ctx.tag("problems:filtered")
     if case.get("raster"):
         ctx.tag("raster")
-    if case.get("reuse"):
+    hist_frames = case.get("frames") or ([{"dt": 1, "network": True, "keep": False}] if case.get("reuse") else [])
+    main_network = case.get("network", True)
+    kept = 0  # lanelet-network drawings held by the renderer when the selected frame is drawn (independent count)
+    for fr in hist_frames:
+        kept = kept + bool(fr["network"]) if fr["keep"] else 0
+    networks = kept + bool(main_network)
+    if hist_frames:
         ctx.tag("renderer-reused")
+        if any(fr["keep"] for fr in hist_frames):
+            ctx.tag("frames:keep-static")
+        if not main_network:
+            ctx.tag("frames:obstacles-only")
     if p.lanelet_network.lanelet.draw_border_vertices:
         ctx.tag("border-vertices")
     prescribed = prescribed_shapes(ctx, obstacles, tb, te) if mode == "plain" and te >= tb and not case.get("outside") else None
     tl = p.lanelet_network.traffic_light
-    light_labels = bool(tl.draw_traffic_lights and not p.lanelet_network.traffic_sign.draw_traffic_signs and net.traffic_lights)
+    light_labels = bool(main_network and tl.draw_traffic_lights and not p.lanelet_network.traffic_sign.draw_traffic_signs
+                        and net.traffic_lights)
     if light_labels:
         ctx.tag("light-labels")
-    res = None
+    res, prev, mframes = None, [], None
+    for fr in hist_frames:
+        q = B.mk_params(case["params"])
+        q.time_begin, q.time_end = tb + fr["dt"], te + fr["dt"]
+        prev.append((q, fr["network"], fr["keep"]))
     if model and not case.get("outside"):
-        res = model_draw(ctx, p, obstacles)
+        if prev:
+            mframes = model_frames(ctx, prev + [(p, main_network, False)], obstacles)
+            res = {"ok": mframes[-1]["patches"]}
+        else:
+            res = model_draw(ctx, p, obstacles)
         for its in (res or {}).get("ok", []):
             for it in its:
                 ctx.tag({"icon": "icon", "hist": "history"}.get(it[0], "item:" + it[0]))
@@ -774,19 +863,24 @@ def run_draw_case(ctx, case, model=True):
                     ctx.tag("reading:mid")
     # ------------------------------------------------------------------ draw (scenario), observe, draw (problems), render
     rnd = MPRenderer(ax=ax)
-    if case.get("reuse"):
-        # the same renderer has already drawn and rendered another time step (as create_video does frame by frame)
+    for i, (q, nw, keep) in enumerate(prev):
+        # the same renderer has already drawn and rendered other time steps (as create_video does frame by frame),
+        # with the static map re-drawn every frame or kept by render(keep_static_artists=True)
         try:
-            p0 = B.mk_params(case["params"])
-            p0.time_begin = tb + 1
-            p0.time_end = te + 1
-            sc.draw(rnd, p0)
-            pps.draw(rnd, p0)
-            rnd.render()
+            got, glabs = draw_frame(rnd, sc, pps, q, nw)
+            if mframes is not None:
+                exp, labs = expected_of(mframes[i]["patches"], obstacles, q)
+                got = [ANY if j < len(exp) and exp[j] == ANY else x for j, x in enumerate(got)]
+                ctx.compare(case, {"patches": got, "labels": glabs}, {"patches": exp, "labels": labs},
+                            f"buffers of earlier frame {i} before its render vs CR.Draw.showFrames")
+            rnd.render(keep_static_artists=keep)
         except Exception as e:  # noqa
             return fail_exc(ctx, "draw_render_previous_frame", e, case)
     try:
-        sc.draw(rnd, p)
+        if main_network:
+            sc.draw(rnd, p)
+        else:
+            rnd.draw_list(sc.obstacles, p)
     except Exception as e:  # noqa
         if case.get("outside"):
             # an input outside the property's quantifier (named in the case): no verdict, but the model of the partial
@@ -804,7 +898,8 @@ def run_draw_case(ctx, case, model=True):
     fills = [poly(pa.vertices) for c in rnd.static_collections if isinstance(c, mcoll.PolyCollection) for pa in c.get_paths()]
     n_static = len(rnd.static_artists)
     try:
-        pps.draw(rnd, p)
+        if main_network:
+            pps.draw(rnd, p)
     except Exception as e:  # noqa
         return fail_exc(ctx, "draw_planning_problem_set", e, case)
     annos = [canon(list(a.xy)) for a in rnd.static_artists[n_static:] if isinstance(a, mtext.Annotation)]
@@ -825,13 +920,8 @@ def run_draw_case(ctx, case, model=True):
     if model:
         ctx.compare(case, read_flags(p), ctx.driver.ask("C19", "flags_of", {"tree": dump(p)}),
                     "flags and windows read by the drawing functions vs CR.Draw.flagsOf")
-        expected, labels = [], []
-        for o, its in zip(obstacles, (res or {}).get("ok", [])):
-            for it in its:
-                if it[0] == "label":
-                    pos = anchor(label_state(o, p), it[1])
-                    labels.append([canon(pos[0] + 0.5), canon(pos[1]), str(o.obstacle_id)])
-                expected.extend(expand(it, o, p))
+        expected, labels = expected_of((res or {}).get("ok", []), obstacles, p)
+        m_networks = mframes[-1]["networks"] if mframes is not None else 1
         got = [ANY if i < len(expected) and expected[i] == ANY else x for i, x in enumerate(patches)]
         ctx.compare(case, {"ok": True, "patches": got, "labels": labels_obs},
                     {"ok": res is not None and "ok" in res, "patches": expected, "labels": labels},
@@ -842,7 +932,7 @@ def run_draw_case(ctx, case, model=True):
                          for l in net.lanelets],
             "draw_ids": draw_ids, "border_vertices": ll.draw_border_vertices, "left_bound": ll.draw_left_bound,
             "right_bound": ll.draw_right_bound})
-        ctx.compare(case, {"ok": n_border}, {"ok": m["ok"]["border_collections"]} if "ok" in m else m,
+        ctx.compare(case, {"ok": n_border}, {"ok": m["ok"]["border_collections"] * m_networks} if "ok" in m else m,
                     "border-vertex EllipseCollections vs CR.Draw.drawNetC")
         if light_labels:
             m = ctx.driver.ask("C19", "lights", {"show_label": tl.show_label, "lights": [
@@ -852,17 +942,18 @@ def run_draw_case(ctx, case, model=True):
                         "traffic-light label texts after render vs CR.Draw.lightLabelsC")
         if fill_on:
             m = ctx.driver.ask("C19", "lanelets", {"ids": lids, "draw_ids": draw_ids})
-            ctx.compare(case, drawn_ids, sorted(m), "filled lanelet polygons vs CR.Draw.laneletsDrawn")
-        m = ctx.driver.ask("C19", "problems", {"ids": pp_ids, "draw_ids": pp_sel})
+            ctx.compare(case, drawn_ids, sorted(m * m_networks),
+                        "filled lanelet polygons held by the renderer vs CR.Draw.laneletsDrawn x networks of CR.Draw.showFrames")
+        m = ctx.driver.ask("C19", "problems", {"ids": pp_ids, "draw_ids": pp_sel}) if main_network else []
         exp_xy = [canon([pps.planning_problem_dict[i].initial_state.position[0] + 1,
                          pps.planning_problem_dict[i].initial_state.position[1]]) for i in m]
         ctx.compare(case, annos, exp_xy, "planning-problem annotations vs CR.Draw.problemsDrawn")
     # ------------------------------------------------------------------ oracle: the property statement itself
-    if fill_on:
+    if fill_on and networks == 1:
         if drawn_ids != want:
             ctx.fail("C19/draw_lanelet_network/wrong-lanelets",
                      f"lanelets {lids}, draw_ids={draw_ids}: filled lanelets drawn {drawn_ids}, expected {want}", case)
-    want_pp = [i for i in pp_ids if pp_sel is None or i in pp_sel]
+    want_pp = [i for i in pp_ids if pp_sel is None or i in pp_sel] if main_network else []
     if len(annos) != len(want_pp):
         ctx.fail("C19/draw_planning_problem_set/wrong-problems",
                  f"planning problems {pp_ids}, draw_ids={pp_sel}: {len(annos)} drawn, expected {want_pp}", case)
